@@ -175,6 +175,17 @@ struct C11 : Scenario {
                 recdesc = recmode == 2 ? "index" : "negative";
             }
         }
+        // the same records stored with another element type (a file converted by numpy/h5py, or written by a double-precision
+        // build): "loads exactly the stored values" - every float32 value survives the round trip through float64
+        if (r.chance(0.15)) {
+            auto ps = leg1.get(PS_DATA);
+            if (ps && ps->dims.size() >= 3) {
+                std::vector<float> all(ps->count());
+                for (size_t i = 0; i < all.size(); i++) all[i] = (float)ps->at(i);
+                std::vector<unsigned long long> dims(ps->dims.begin(), ps->dims.end());
+                if (h5_write_as(x.rc->workdir + "/leg1d.h5", PS_DATA, dims, all, 'd')) { c2.startfile = "leg1d.h5"; o.fault("startfile_stored_as_float64"); o.probe("reach.start_file_float64"); }
+            }
+        }
         unsigned T1eff = (unsigned)std::lround(ax->at(rec) * x.d.steps);
         if (base.renorm > 0 && T1eff % (unsigned)base.renorm != 0) return;   // outside the property's proviso
         if (T1eff == 0 || T1eff >= x.S) return;
